@@ -31,7 +31,11 @@ generator had *excluded* string concatenation with float-typed operands as "outs
 integers / independent of redundant parentheses"; the exclusion is removed, the defect repaired, the model simplified: `mkFlt`
 never yields a whole float), and **`$ALTCHAR " 12"` → `ALTCHAR  12`** and `ALTCHAR ²` accepted (34e4a37: found while *proving*
 `C02_every_emission_legal` — the ALTCHAR case of the proof did not close because the hook checks the stripped text and the line
-keeps the blanks). The model is a model of the repaired tree.
+keeps the blanks); after round 4: `START` + an over-long name (OSError), the comma operator extending its left operand in place
+(aliasing between variables; a list containing itself → RecursionError), and — found when print texts that look like console markup
+were added to the generators — `PRINT [/] x`, `FOO [/] x` or a faulty line with such text made `duckling compile` raise rich's
+MarkupError instead of reporting, and `PRINT [red] alert` was reported as ` alert` (fix: 045314b: user text is escaped before it is
+interpolated into rich markup). The model is a model of the repaired tree.
 
 ### 10.2 Known findings (recorded in `known_findings.json`, not repaired)
 
